@@ -861,7 +861,7 @@ fn judge_c18(result: &Sexp) -> Option<Failure> {
 impl Prop for C18 {
     fn id(&self) -> &'static str { "C18" }
     fn relation(&self) -> &'static str {
-        "low: (debug-info instruction offsets, labels (name, offset, time), end offset, emitted instructions (time, opcode, argument bytes)) of the real Lowerer — under a TestLanguage with generated signatures, and through the real compiler + written binary of every format with the game's own signatures — == Lean `Offsets.lowerTail` (gather_label_info with dummy substitution, encode_labels, second encoding pass); errors by diagnostic class, the second-pass panic by site"
+        "low: (debug-info instruction offsets, labels (name, offset, time), end offset, emitted instructions (time, opcode, argument bytes)) of the real Lowerer — under a TestLanguage with generated signatures, and through the real compiler + written binary of every format with the game's own signatures — == Lean `Offsets.lowerTail` (gather_label_info with dummy substitution, encode_labels, second encoding pass); errors by diagnostic class"
     }
     fn rule(&self) -> &'static str {
         "low: straight-line streams of 1-10 statements over 1-4 signatures (generated ones incl. strings of every size kind / mask / furibug, jumps, narrow integers; or drawn from the game's table, favouring jumps and strings), labels at the start / between / doubled / at the end, offsetof/timeof arguments in jump, wide and narrow integer positions, @blob calls, absolute time labels, occasional misfits, duplicate and undefined labels; non-trivial = at least one instruction. prog: generated programs of ANM / MSG / ending MSG / STD / old ECL (subs and timelines) of every supported game: string instructions with furigana prefixes, labels at block edges and at the script end, loops, times, if/else, gotos, locals and sub parameters used in marker instructions, expression temporaries, difficulty switches and difficulty labels, const definitions (forward references, chains); debug info written by prepare_and_write_debug_info vs the written binary parsed by an independent layout parser; non-trivial = the program compiled and at least one script has an instruction; distinct by case text"
@@ -869,7 +869,7 @@ impl Prop for C18 {
     fn theorems(&self) -> &'static [&'static str] {
         &["TruthModel.C18.dummy_same_size", "TruthModel.C18.offsets_stable", "TruthModel.C18.label_on_boundary", "TruthModel.C18.end_is_length", "TruthModel.C18.instr_count",
           "TruthModel.C18.label_time", "TruthModel.C18.label_args_use_recorded", "TruthModel.C18.written_layout", "TruthModel.C18.second_pass_ok_of_wide", "TruthModel.C18.no_panic_after_gather",
-          "TruthModel.C18.second_pass_panics", "TruthModel.C18.index20_assert_fires"]
+          "TruthModel.C18.second_pass_reports", "TruthModel.C18.index20_no_assert", "TruthModel.C18.encodeLabels_no_panic"]
     }
     fn timeout_secs(&self) -> u64 { 60 }
 
